@@ -1,1 +1,740 @@
-/-! # C04 — property theorems (stub: not built yet) -/
+import KM.Lemmas.Token
+/-! # C04 — signed tokens are unforgeable and never accepted outside their purpose
+
+Property theorems only. The model (`KM.Token`) transcribes the consumers of `cmd/keymasterd`;
+`honourable` is the property's own predicate. Tables under `KM.Gen.C04` are regenerated from the
+source tree on every run. -/
+namespace KM.Token
+open KM.Gen.C04
+
+/-- the two facts about the environment the theorems need: the issuer URL is not empty (it always
+starts with `https://`) and the clock reads a time after 1970 -/
+structure Sane (x : Ctx) : Prop where
+  issuer : x.dep.issuer ≠ []
+  clock : 0 ≤ x.now.sec
+
+/-! ### the regenerated tables are the ones the model was transcribed from -/
+
+/-- the comparisons the model's consumers make, as a table -/
+def expectAuthValues (want : Rhs) : List Cmp :=
+  [⟨.issuer, .ne, .issuer⟩, ⟨.tokenType, .ne, want⟩, ⟨.audienceLen, .lt, .int 1⟩,
+   ⟨.audience0, .ne, .issuer⟩, ⟨.notBefore, .gt, .nowUnix⟩]
+
+def guarded : UpgradeGuard → Bool
+  | .checkAuthBefore | .commonTOTPBefore => true
+  | _ => false
+
+/-- **Sites.** What the source says today is what the model assumes:
+the five kind literals (pairwise distinct, none empty), the kind strings the callers of
+`getAuthInfoFromJWT` demand, the comparison set of every consumer (a dropped or altered comparison
+changes the table), the JSON key / Go type of every claims-struct field the decoders read, what
+`getAuthInfoFromJWT` copies into its result, and that every `updateAuthCookieAuthlevel` call site
+sits behind `checkAuth`. -/
+theorem c04_sites :
+    [sessionType, cliType, storageType, codeType, accessType].Pairwise (· ≠ ·) ∧
+    [sessionType, cliType, storageType, codeType, accessType].all (· ≠ []) = true ∧
+    want_getAuthInfoFromAuthJWT = sessionType ∧ want_VerifyAuthTokenHandler = cliType ∧
+    want_SendAuthDocumentHandler = cliType ∧
+    cmps_getAuthInfoFromJWT = expectAuthValues (.param "tokenType".toList) ∧
+    cmps_updateAuthJWTWithNewAuthLevel = expectAuthValues (.lit sessionType) ∧
+    cmps_getStorageDataFromStorageStringDataJWT = expectAuthValues (.lit storageType) ∧
+    cmps_GetSigned = [⟨.subject, .ne, .param "username".toList⟩, ⟨.dataType, .ne, .param "dataType".toList⟩,
+                      ⟨.expiration, .lt, .nowUnix⟩] ∧
+    cmps_checkAuth = [⟨.expiresAt, .beforeNow, .none⟩, ⟨.authType, .maskZero, .param "requiredAuthType".toList⟩] ∧
+    cmps_VerifyAuthTokenHandler = [⟨.expiresAt, .untilNeg, .none⟩] ∧
+    cmps_SendAuthDocumentHandler = [⟨.authUsername, .ne, .field "authData.Username".toList⟩, ⟨.expiresAt, .untilNeg, .none⟩] ∧
+    cmps_idpOpenIDCTokenHandler = [⟨.subject, .ne, .loc "clientID".toList⟩, ⟨.expiration, .lt, .nowUnix⟩,
+                                   ⟨.redirectURI, .ne, .form "redirect_uri".toList⟩, ⟨.typ, .ne, .lit codeType⟩] ∧
+    cmps_idpOpenIDCUserinfoHandler = [⟨.expiration, .lt, .nowUnix⟩, ⟨.typ, .ne, .lit accessType⟩,
+                                      ⟨.issuer, .ne, .issuer⟩, ⟨.audienceHas, .missingIfNonEmpty, .userinfoURL⟩] ∧
+    authInfoAssignments = [("AuthType".toList, "AuthType".toList, "id".toList),
+                           ("ExpiresAt".toList, "Expiration".toList, "timeUnix".toList),
+                           ("IssuedAt".toList, "IssuedAt".toList, "timeUnix".toList),
+                           ("Username".toList, "Subject".toList, "id".toList)] ∧
+    upgradeCallers.all (fun s => guarded s.2 || s.1 == "internalTOTPAuthHandler") = true ∧
+    internalTOTPCallers.all (fun s => guarded s.2) = true ∧ internalTOTPCallers ≠ [] := by
+  decide
+
+/-- JSON key and Go type of the struct fields each decoder of the model reads -/
+def layout (l : List StructField) : List (Str × GoTy) := l.map (fun f => (f.json, f.ty))
+
+/-- **Sites (layout).** The claims structs carry exactly the JSON keys / types the model's decoders
+(`typedAuth`, `typedStorage`, `typedCode`, `typedAccess`) and `Field.json` assume, and the fields
+written with `omitempty` are the ones `emitAuth` / `emitStorage` / `emitCode` / `emitAccess` omit. -/
+theorem c04_sites_layout :
+    layout struct_authInfoJWT =
+      [(Field.iss.json, .str), (Field.sub.json, .str), (Field.aud.json, .strs), (Field.exp.json, .int),
+       (Field.nbf.json, .int), (Field.iat.json, .int), (Field.tokenType.json, .str), (Field.authType.json, .int)] ∧
+    layout struct_storageStringDataJWT =
+      [(Field.iss.json, .str), (Field.sub.json, .str), (Field.aud.json, .strs), (Field.nbf.json, .int),
+       (Field.exp.json, .int), (Field.iat.json, .int), (Field.tokenType.json, .str), (Field.dataType.json, .int),
+       (Field.data.json, .str)] ∧
+    layout struct_keymasterdCodeToken =
+      [(Field.iss.json, .str), (Field.sub.json, .str), (Field.iat.json, .int), (Field.exp.json, .int),
+       (Field.aud.json, .strs), (Field.username.json, .str), (Field.authLevel.json, .int), (Field.authExp.json, .int),
+       (Field.nonce.json, .str), (Field.redirectUri.json, .str), (Field.accessAudience.json, .strs),
+       (Field.scope.json, .str), (Field.typ.json, .str), (Field.jti.json, .str),
+       (Field.protectedDataKey.json, .str), (Field.protectedData.json, .str)] ∧
+    layout struct_bearerAccessToken =
+      [(Field.iss.json, .str), (Field.aud.json, .strs), (Field.username.json, .str), (Field.scope.json, .str),
+       (Field.exp.json, .int), (Field.iat.json, .int), (Field.typ.json, .str)] ∧
+    layout struct_openIDConnectIDToken =
+      [(Field.iss.json, .str), (Field.sub.json, .str), (Field.aud.json, .strs), (Field.exp.json, .int),
+       (Field.iat.json, .int), (Field.authTime.json, .int), (Field.nonce.json, .str)] ∧
+    (struct_authInfoJWT.filter (·.omitempty)).map (·.json) =
+      [Field.iss.json, Field.sub.json, Field.aud.json, Field.exp.json, Field.nbf.json, Field.iat.json] ∧
+    (struct_storageStringDataJWT.filter (·.omitempty)).map (·.json) =
+      [Field.iss.json, Field.sub.json, Field.aud.json, Field.nbf.json, Field.iat.json] ∧
+    (struct_keymasterdCodeToken.filter (·.omitempty)).map (·.json) =
+      [Field.accessAudience.json, Field.protectedDataKey.json, Field.protectedData.json] ∧
+    (struct_bearerAccessToken.filter (·.omitempty)).map (·.json) = [Field.aud.json] ∧
+    (struct_openIDConnectIDToken.filter (·.omitempty)).map (·.json) = [Field.authTime.json, Field.nonce.json] := by
+  decide
+
+/-! ### the model's value test *is* the regenerated comparison table, interpreted -/
+
+/-- meaning of one comparison of the `jwt.go` value tests; anything not understood counts as "rejects" -/
+def evalAuthCmp (d : Deployment) (now : Clock) (want : Str) (w : Wire) : Cmp → Bool
+  | ⟨.issuer, .ne, .issuer⟩ => gStr w .iss != d.issuer
+  | ⟨.tokenType, .ne, .param _⟩ => gStr w .tokenType != want
+  | ⟨.tokenType, .ne, .lit s⟩ => gStr w .tokenType != s
+  | ⟨.audienceLen, .lt, .int n⟩ => decide (((gStrs w .aud).length : Int) < n)
+  | ⟨.audience0, .ne, .issuer⟩ => (gStrs w .aud).head? != some d.issuer
+  | ⟨.notBefore, .gt, .nowUnix⟩ => decide (gInt w .nbf > now.sec)
+  | _ => true
+
+/-- **Table = model.** `authValuesBad` (used by the session, CLI, upgrade and storage consumers) is
+exactly the disjunction of the comparisons extracted from `getAuthInfoFromJWT`,
+`updateAuthJWTWithNewAuthLevel` and `getStorageDataFromStorageStringDataJWT`. -/
+theorem c04_table_model (d : Deployment) (now : Clock) (want : Str) (w : Wire) :
+    authValuesBad d now want w = cmps_getAuthInfoFromJWT.any (evalAuthCmp d now want w) ∧
+    authValuesBad d now sessionType w = cmps_updateAuthJWTWithNewAuthLevel.any (evalAuthCmp d now sessionType w) ∧
+    authValuesBad d now storageType w =
+      cmps_getStorageDataFromStorageStringDataJWT.any (evalAuthCmp d now storageType w) := by
+  have h1 := c04_sites.2.2.2.2.2.1
+  have h2 := c04_sites.2.2.2.2.2.2.1
+  have h3 := c04_sites.2.2.2.2.2.2.2.1
+  rw [h1, h2, h3]
+  have hl : ∀ l : List Str, decide ((l.length : Int) < 1) = decide (l = []) := by
+    intro l
+    cases l with
+    | nil => simp
+    | cons a as =>
+      simp
+      omega
+  simp [expectAuthValues, evalAuthCmp, authValuesBad, Bool.or_assoc, hl]
+
+/-! ### soundness: whatever a consumer honours satisfies the property's predicate -/
+
+theorem want_session : want_getAuthInfoFromAuthJWT = sessionType := by decide
+theorem want_cliV : want_VerifyAuthTokenHandler = cliType := by decide
+theorem want_cliS : want_SendAuthDocumentHandler = cliType := by decide
+
+/-- the shape shared by the three `authInfoJWT`/storage value tests -/
+theorem auth_core {d : Deployment} {now : Clock} {want : Str} {a : Artefact}
+    (hv : verifies d a = true) (hb : authValuesBad d now want a.claims = false) :
+    signedByDeployment d a = true ∧ gStr a.claims .tokenType = want ∧ gInt a.claims .nbf ≤ now.sec ∧
+    namesThisServer d a.claims = true := by
+  obtain ⟨h1, h2, h3, h4⟩ := authValues_ok hb
+  refine ⟨verifies_signed hv, h2, h4, ?_⟩
+  have hm := head_mem_contains h3
+  simp only [List.contains_iff_mem] at hm
+  simp [namesThisServer, h1, hm]
+
+/-- **Soundness.** For every consumer, context and artefact (any claims object, any header
+algorithm, any signature): if the consumer honours the artefact then it was signed by one of the
+deployment's keys under that key's algorithm, says it is of the kind the consumer is for, is inside
+its validity window, names this server as issuer and audience (session, CLI, storage) and is bound
+to the request (storage: user and type looked up; code: the authenticated client; CLI hand-off: the
+logged-in user). -/
+theorem c04_sound (c : Consumer) (x : Ctx) (a : Artefact) (hs : Sane x) (h : accepts c x a = true) :
+    honourable c x a = true := by
+  have hc := hs.clock
+  cases c with
+  | session =>
+    obtain ⟨info, hi⟩ := isOk_iff.mp h
+    obtain ⟨hg, he, _⟩ := acceptSession_ok hi
+    obtain ⟨hv, _, hb, rfl⟩ := getAuthInfo_ok hg
+    obtain ⟨k1, k2, k3, k4⟩ := auth_core hv hb
+    have := not_expired_ge (gInt_range _ _) hc he
+    simp [honourable, Consumer.purpose, hasMarker, inWindow, k1, k2, k3, k4, want_session, this]
+  | upgrade =>
+    obtain ⟨cl, hi⟩ := isOk_iff.mp h
+    obtain ⟨hv, _, hb, _⟩ := acceptUpgrade_ok hi
+    obtain ⟨k1, k2, k3, k4⟩ := auth_core hv hb
+    simp [honourable, Consumer.purpose, hasMarker, k1, k2, k3, k4]
+  | cliVerify =>
+    obtain ⟨info, hi⟩ := isOk_iff.mp h
+    obtain ⟨hg, he⟩ := acceptCliVerify_ok hi
+    obtain ⟨hv, _, hb, rfl⟩ := getAuthInfo_ok hg
+    obtain ⟨k1, k2, k3, k4⟩ := auth_core hv hb
+    have := not_expired_ge (gInt_range _ _) hc he
+    simp [honourable, Consumer.purpose, hasMarker, inWindow, k1, k2, k3, k4, want_cliV, this]
+  | cliSend =>
+    obtain ⟨info, hi⟩ := isOk_iff.mp h
+    obtain ⟨hg, hu, he⟩ := acceptCliSend_ok hi
+    obtain ⟨hv, _, hb, rfl⟩ := getAuthInfo_ok hg
+    obtain ⟨k1, k2, k3, k4⟩ := auth_core hv hb
+    have := not_expired_ge (gInt_range _ _) hc he
+    simp at hu
+    simp [honourable, Consumer.purpose, hasMarker, inWindow, k1, k2, k3, k4, want_cliS, this, hu]
+  | storage =>
+    obtain ⟨data, hi⟩ := isOk_iff.mp h
+    obtain ⟨_, hsv, h1, h2, h3, _⟩ := acceptStorage_ok hi
+    obtain ⟨hv, _, hb⟩ := storageVerify_ok hsv
+    obtain ⟨k1, k2, k3, k4⟩ := auth_core hv hb
+    simp at h1 h2 h3 k1 k2 k3 k4
+    simp [honourable, Consumer.purpose, hasMarker, inWindow, k1, k2, k3, k4, h1, h2, h3]
+  | code =>
+    obtain ⟨w, hi⟩ := isOk_iff.mp h
+    obtain ⟨hv, _, _, hcc, _⟩ := acceptCode_ok hi
+    obtain ⟨h1, h2, _, h4⟩ := codeChecks_ok hcc
+    simp [honourable, Consumer.purpose, hasMarker, inWindow, verifies_signed hv, h1, h2, h4]
+  | access =>
+    obtain ⟨u, hi⟩ := isOk_iff.mp h
+    obtain ⟨hv, _, h1, h2, _, _, _⟩ := acceptAccess_ok hi
+    simp [honourable, Consumer.purpose, hasMarker, inWindow, verifies_signed hv, h1, h2]
+
+/-- without any assumption on the environment: an honoured artefact passed signature verification
+and carries the marker of the consumer's kind -/
+theorem accepts_core (c : Consumer) (x : Ctx) (a : Artefact) (h : accepts c x a = true) :
+    verifies x.dep a = true ∧ hasMarker c.purpose a.claims = true := by
+  cases c with
+  | session =>
+    obtain ⟨info, hi⟩ := isOk_iff.mp h
+    obtain ⟨hg, _, _⟩ := acceptSession_ok hi
+    obtain ⟨hv, _, hb, _⟩ := getAuthInfo_ok hg
+    exact ⟨hv, by simp [Consumer.purpose, hasMarker, (auth_core hv hb).2.1, want_session]⟩
+  | upgrade =>
+    obtain ⟨cl, hi⟩ := isOk_iff.mp h
+    obtain ⟨hv, _, hb, _⟩ := acceptUpgrade_ok hi
+    exact ⟨hv, by simp [Consumer.purpose, hasMarker, (auth_core hv hb).2.1]⟩
+  | cliVerify =>
+    obtain ⟨info, hi⟩ := isOk_iff.mp h
+    obtain ⟨hg, _⟩ := acceptCliVerify_ok hi
+    obtain ⟨hv, _, hb, _⟩ := getAuthInfo_ok hg
+    exact ⟨hv, by simp [Consumer.purpose, hasMarker, (auth_core hv hb).2.1, want_cliV]⟩
+  | cliSend =>
+    obtain ⟨info, hi⟩ := isOk_iff.mp h
+    obtain ⟨hg, _, _⟩ := acceptCliSend_ok hi
+    obtain ⟨hv, _, hb, _⟩ := getAuthInfo_ok hg
+    exact ⟨hv, by simp [Consumer.purpose, hasMarker, (auth_core hv hb).2.1, want_cliS]⟩
+  | storage =>
+    obtain ⟨data, hi⟩ := isOk_iff.mp h
+    obtain ⟨_, hsv, _⟩ := acceptStorage_ok hi
+    obtain ⟨hv, _, hb⟩ := storageVerify_ok hsv
+    have := (auth_core hv hb).2.1
+    simp at this
+    exact ⟨hv, by simp [Consumer.purpose, hasMarker, this]⟩
+  | code =>
+    obtain ⟨w, hi⟩ := isOk_iff.mp h
+    obtain ⟨hv, _, _, hcc, _⟩ := acceptCode_ok hi
+    exact ⟨hv, by simp [Consumer.purpose, hasMarker, (codeChecks_ok hcc).2.2.2]⟩
+  | access =>
+    obtain ⟨u, hi⟩ := isOk_iff.mp h
+    obtain ⟨hv, _, _, h2, _⟩ := acceptAccess_ok hi
+    exact ⟨hv, by simp [Consumer.purpose, hasMarker, h2]⟩
+
+/-! ### the producer × consumer matrix -/
+
+/-- every claims object some producer of keymasterd can mint, for every choice of its parameters
+(deployment, user, level, times, client, scope, nonce, redirect, audiences, …) -/
+inductive Minted : Kind → Wire → Prop
+  | session (d : Deployment) (user : Str) (level t dur : Int) : Minted .session (emitSession d user level t dur)
+  | cli (d : Deployment) (user : Str) (t life : Int) : Minted .cli (emitCli d user t life)
+  | storage (d : Deployment) (user : Str) (ty : Int) (data : Str) (exp t : Int) :
+      Minted .storage (emitStorage d user ty data exp t)
+  | code (d : Deployment) (p : CodeParams) (t : Int) : Minted .code (emitCode d p t)
+  | access (d : Deployment) (c : Wire) (t : Int) : Minted .access (emitAccess d c t)
+  | idToken (d : Deployment) (c : Wire) (client : Str) (t : Int) : Minted .idToken (emitId d c client t)
+
+/-- the kind markers a minted artefact carries: its `token_type` and `type` claims as decoded -/
+theorem minted_markers {k : Kind} {w : Wire} (h : Minted k w) :
+    (gStr w .tokenType, gStr w .typ) =
+      match k with
+      | .session => (sessionType, []) | .cli => (cliType, []) | .storage => (storageType, [])
+      | .code => ([], codeType) | .access => ([], accessType) | .idToken => ([], []) := by
+  cases h <;> simp [emitSession, emitCli, emitAuth, emitStorage, emitCode, emitAccess, emitId, gStr, decStr]
+
+/-- **Matrix.** An artefact minted as kind `k` — whatever the producer's parameters, whoever signed
+it, under whatever algorithm — is rejected by every consumer whose purpose is another kind, in every
+context. (In particular an ID token is accepted nowhere.) -/
+theorem c04_matrix (k : Kind) (w : Wire) (hm : Minted k w) (c : Consumer) (hk : c.purpose ≠ k)
+    (x : Ctx) (alg sigAlg : Alg) (signedBy : Option Nat) :
+    accepts c x { claims := w, alg := alg, signedBy := signedBy, sigAlg := sigAlg } = false := by
+  cases hacc : accepts c x { claims := w, alg := alg, signedBy := signedBy, sigAlg := sigAlg }
+  · rfl
+  · exfalso
+    have hmk := (accepts_core c x _ hacc).2
+    have hmm := minted_markers hm
+    simp only at hmk
+    have e1 : sessionType ≠ [] := by decide
+    have e2 : cliType ≠ [] := by decide
+    have e3 : storageType ≠ [] := by decide
+    have e4 : codeType ≠ [] := by decide
+    have e5 : accessType ≠ [] := by decide
+    have d12 : sessionType ≠ cliType := by decide
+    have d13 : sessionType ≠ storageType := by decide
+    have d23 : cliType ≠ storageType := by decide
+    have d45 : codeType ≠ accessType := by decide
+    cases k <;> cases c <;>
+      simp_all [Consumer.purpose, hasMarker, Ne.symm d12, Ne.symm d13, Ne.symm d23, Ne.symm d45]
+
+/-! ### keys and algorithms -/
+
+/-- **Key.** If no trusted key made the signature under the scheme the header names and that is
+the key's own algorithm, every consumer rejects, whatever the claims say. -/
+theorem c04_key (c : Consumer) (x : Ctx) (a : Artefact) (h : signedByDeployment x.dep a = false) :
+    accepts c x a = false := by
+  cases hacc : accepts c x a
+  · rfl
+  · have := verifies_signed (accepts_core c x a hacc).1
+    rw [this] at h; cases h
+
+theorem signed_false_iff {d : Deployment} {a : Artefact} :
+    signedByDeployment d a = false ↔
+      ∀ k ∈ d.trusted, ¬(a.signedBy = some k.id ∧ algOf k.ty = some a.alg ∧ a.sigAlg = a.alg) := by
+  simp [signedByDeployment, and_assoc]
+
+/-- re-signing with a key that is not one of the deployment's -/
+theorem c04_key_foreign (c : Consumer) (x : Ctx) (a : Artefact)
+    (h : ∀ k ∈ x.dep.trusted, a.signedBy ≠ some k.id) : accepts c x a = false := by
+  apply c04_key
+  rw [signed_false_iff]
+  intro k hk hh
+  exact h k hk hh.1
+
+/-- algorithm substitution: `none`, HMAC (e.g. keyed with the public key) and every algorithm keymaster
+derives for no key type are rejected even if a trusted key "made" the signature -/
+theorem c04_key_alg (c : Consumer) (x : Ctx) (a : Artefact)
+    (h : a.alg = .none ∨ a.alg = .HS256 ∨ a.alg = .RS384 ∨ a.alg = .RS512 ∨ a.alg = .PS256 ∨ a.alg = .other) :
+    accepts c x a = false := by
+  apply c04_key
+  rw [signed_false_iff]
+  intro k _ hh
+  have h2 := hh.2.1
+  rcases h with h | h | h | h | h | h <;> rw [h] at h2 <;> cases hk : k.ty <;> rw [hk] at h2 <;> cases h2
+
+/-- key-type confusion (RS↔ES …): a header algorithm that is not the signing key's own, or a
+signature produced under another scheme than the header says -/
+theorem c04_key_confusion (c : Consumer) (x : Ctx) (a : Artefact)
+    (h : a.sigAlg ≠ a.alg ∨ ∀ k ∈ x.dep.trusted, a.signedBy = some k.id → algOf k.ty ≠ some a.alg) :
+    accepts c x a = false := by
+  apply c04_key
+  rw [signed_false_iff]
+  intro k hk hh
+  rcases h with h | h
+  · exact h hh.2.2
+  · exact h k hk hh.1 hh.2.1
+
+/-- the header algorithm must be on the list derived from the trusted keys -/
+theorem c04_key_allowed (c : Consumer) (x : Ctx) (a : Artefact) (l : List Alg)
+    (hl : allowed x.dep = some l) (h : a.alg ∉ l) : accepts c x a = false := by
+  apply c04_key
+  rw [signed_false_iff]
+  intro k hk hh
+  exact h ((allowed_mem hl a.alg).mpr ⟨k, hk, hh.2.1⟩)
+
+/-! ### validity window, issuer and audience -/
+
+/-- **Window.** Past its signed `exp` an artefact is rejected by every consumer that grants
+anything on it, and before its signed `nbf` by every consumer of the kinds that carry one — with
+exactly the claims the Go code reads (`exp`/`nbf` as decoded into the consumer's struct).
+`upgrade` does not read `exp` (see `c04_upgrade_keeps_window_and_user`). -/
+theorem c04_window (c : Consumer) (x : Ctx) (a : Artefact) (hs : Sane x) :
+    (c ≠ .upgrade → gInt a.claims .exp < x.now.sec → accepts c x a = false) ∧
+    ((c.purpose = .session ∨ c.purpose = .cli ∨ c.purpose = .storage) →
+      x.now.sec < gInt a.claims .nbf → accepts c x a = false) := by
+  constructor
+  · intro hc hlt
+    cases hacc : accepts c x a
+    · rfl
+    · have hh := c04_sound c x a hs hacc
+      cases c <;> simp_all [honourable, Consumer.purpose, inWindow] <;> omega
+  · intro hc hlt
+    cases hacc : accepts c x a
+    · rfl
+    · have hh := c04_sound c x a hs hacc
+      cases c <;> simp_all [honourable, Consumer.purpose, inWindow] <;> omega
+
+/-- **Issuer and audience.** Session cookies, CLI tokens and storage records are honoured only
+when `iss` is this server and the first audience is this server. -/
+theorem c04_iss_aud (c : Consumer) (x : Ctx) (a : Artefact)
+    (hp : c.purpose = .session ∨ c.purpose = .cli ∨ c.purpose = .storage) (h : accepts c x a = true) :
+    gStr a.claims .iss = x.dep.issuer ∧ (gStrs a.claims .aud).head? = some x.dep.issuer := by
+  cases c with
+  | session =>
+    obtain ⟨info, hi⟩ := isOk_iff.mp h
+    obtain ⟨hg, _, _⟩ := acceptSession_ok hi
+    obtain ⟨_, _, hb, _⟩ := getAuthInfo_ok hg
+    exact ⟨(authValues_ok hb).1, (authValues_ok hb).2.2.1⟩
+  | upgrade =>
+    obtain ⟨cl, hi⟩ := isOk_iff.mp h
+    obtain ⟨_, _, hb, _⟩ := acceptUpgrade_ok hi
+    exact ⟨(authValues_ok hb).1, (authValues_ok hb).2.2.1⟩
+  | cliVerify =>
+    obtain ⟨info, hi⟩ := isOk_iff.mp h
+    obtain ⟨hg, _⟩ := acceptCliVerify_ok hi
+    obtain ⟨_, _, hb, _⟩ := getAuthInfo_ok hg
+    exact ⟨(authValues_ok hb).1, (authValues_ok hb).2.2.1⟩
+  | cliSend =>
+    obtain ⟨info, hi⟩ := isOk_iff.mp h
+    obtain ⟨hg, _, _⟩ := acceptCliSend_ok hi
+    obtain ⟨_, _, hb, _⟩ := getAuthInfo_ok hg
+    exact ⟨(authValues_ok hb).1, (authValues_ok hb).2.2.1⟩
+  | storage =>
+    obtain ⟨data, hi⟩ := isOk_iff.mp h
+    obtain ⟨_, hsv, _⟩ := acceptStorage_ok hi
+    obtain ⟨_, _, hb⟩ := storageVerify_ok hsv
+    exact ⟨(authValues_ok hb).1, (authValues_ok hb).2.2.1⟩
+  | code => simp [Consumer.purpose] at hp
+  | access => simp [Consumer.purpose] at hp
+
+/-- the access-token consumer's own issuer / audience rule -/
+theorem c04_access_iss_aud (x : Ctx) (a : Artefact) (h : accepts .access x a = true) :
+    gStr a.claims .iss = x.dep.issuer ∧
+    (gStrs a.claims .aud = [] ∨ (gStrs a.claims .aud).contains x.dep.userinfoURL = true) := by
+  obtain ⟨u, hi⟩ := isOk_iff.mp h
+  obtain ⟨_, _, _, _, h5, h6, _⟩ := acceptAccess_ok hi
+  exact ⟨h5, h6⟩
+
+/-! ### single-claim mutations -/
+
+/-- the JSON keys the consumer's claims struct has — all other keys are invisible to it -/
+def Consumer.reads : Consumer → List Field
+  | .session | .upgrade | .cliVerify | .cliSend => [.iss, .sub, .aud, .exp, .nbf, .iat, .tokenType, .authType]
+  | .storage => [.iss, .sub, .aud, .nbf, .exp, .iat, .tokenType, .dataType, .data]
+  | .code => [.iss, .sub, .iat, .exp, .aud, .username, .authLevel, .authExp, .nonce, .redirectUri,
+              .accessAudience, .scope, .typ, .jti, .protectedDataKey, .protectedData]
+  | .access => [.iss, .aud, .username, .scope, .exp, .iat, .typ]
+
+/-- the claims a consumer compares with something fixed by the deployment or the request, as it decodes them -/
+structure Pinned where
+  iss : Str := []
+  kind : Str := []
+  aud0 : Option Str := none
+  audOK : Bool := true
+  sub : Str := []
+  dataType : Int := 0
+  redirect : Str := []
+deriving DecidableEq, Repr
+
+def pinned (c : Consumer) (d : Deployment) (w : Wire) : Pinned :=
+  match c with
+  | .session | .upgrade | .cliVerify =>
+    { iss := gStr w .iss, kind := gStr w .tokenType, aud0 := (gStrs w .aud).head? }
+  | .cliSend =>
+    { iss := gStr w .iss, kind := gStr w .tokenType, aud0 := (gStrs w .aud).head?, sub := gStr w .sub }
+  | .storage =>
+    { iss := gStr w .iss, kind := gStr w .tokenType, aud0 := (gStrs w .aud).head?, sub := gStr w .sub,
+      dataType := gInt w .dataType }
+  | .code => { kind := gStr w .typ, sub := gStr w .sub, redirect := gStr w .redirectUri }
+  | .access =>
+    { iss := gStr w .iss, kind := gStr w .typ,
+      audOK := (gStrs w .aud).isEmpty || (gStrs w .aud).contains d.userinfoURL }
+
+/-- the one value of the pinned claims a consumer honours in a given context -/
+def pinnedGood (c : Consumer) (x : Ctx) : Pinned :=
+  match c with
+  | .session | .upgrade => { iss := x.dep.issuer, kind := sessionType, aud0 := some x.dep.issuer }
+  | .cliVerify => { iss := x.dep.issuer, kind := cliType, aud0 := some x.dep.issuer }
+  | .cliSend => { iss := x.dep.issuer, kind := cliType, aud0 := some x.dep.issuer, sub := x.authUser }
+  | .storage => { iss := x.dep.issuer, kind := storageType, aud0 := some x.dep.issuer, sub := x.lookupUser,
+                  dataType := x.lookupType }
+  | .code => { kind := codeType, sub := x.clientID, redirect := x.redirect }
+  | .access => { iss := x.dep.issuer, kind := accessType }
+
+/-- an honoured artefact carries exactly the one good value of every pinned claim -/
+theorem pinned_of_accepts (c : Consumer) (x : Ctx) (a : Artefact) (h : accepts c x a = true) :
+    pinned c x.dep a.claims = pinnedGood c x := by
+  cases c with
+  | session =>
+    obtain ⟨info, hi⟩ := isOk_iff.mp h
+    obtain ⟨hg, _, _⟩ := acceptSession_ok hi
+    obtain ⟨_, _, hb, _⟩ := getAuthInfo_ok hg
+    obtain ⟨h1, h2, h3, _⟩ := authValues_ok hb
+    simp [pinned, pinnedGood, h1, h2, h3, want_session]
+  | upgrade =>
+    obtain ⟨cl, hi⟩ := isOk_iff.mp h
+    obtain ⟨_, _, hb, _⟩ := acceptUpgrade_ok hi
+    obtain ⟨h1, h2, h3, _⟩ := authValues_ok hb
+    simp [pinned, pinnedGood, h1, h2, h3]
+  | cliVerify =>
+    obtain ⟨info, hi⟩ := isOk_iff.mp h
+    obtain ⟨hg, _⟩ := acceptCliVerify_ok hi
+    obtain ⟨_, _, hb, _⟩ := getAuthInfo_ok hg
+    obtain ⟨h1, h2, h3, _⟩ := authValues_ok hb
+    simp [pinned, pinnedGood, h1, h2, h3, want_cliV]
+  | cliSend =>
+    obtain ⟨info, hi⟩ := isOk_iff.mp h
+    obtain ⟨hg, hu, _⟩ := acceptCliSend_ok hi
+    obtain ⟨_, _, hb, rfl⟩ := getAuthInfo_ok hg
+    obtain ⟨h1, h2, h3, _⟩ := authValues_ok hb
+    simp at hu
+    simp [pinned, pinnedGood, h1, h2, h3, want_cliS, hu]
+  | storage =>
+    obtain ⟨data, hi⟩ := isOk_iff.mp h
+    obtain ⟨_, hsv, k1, k2, _⟩ := acceptStorage_ok hi
+    obtain ⟨_, _, hb⟩ := storageVerify_ok hsv
+    obtain ⟨h1, h2, h3, _⟩ := authValues_ok hb
+    simp at h1 h2 h3 k1 k2
+    simp [pinned, pinnedGood, h1, h2, h3, k1, k2]
+  | code =>
+    obtain ⟨w, hi⟩ := isOk_iff.mp h
+    obtain ⟨_, _, _, hcc, _⟩ := acceptCode_ok hi
+    obtain ⟨h1, _, h3, h4⟩ := codeChecks_ok hcc
+    simp [pinned, pinnedGood, h1, h3, h4]
+  | access =>
+    obtain ⟨u, hi⟩ := isOk_iff.mp h
+    obtain ⟨_, _, _, h2, h3, h4, _⟩ := acceptAccess_ok hi
+    rcases h4 with h4 | h4
+    · simp [pinned, pinnedGood, h2, h3, h4]
+    · simp only [List.contains_iff_mem] at h4
+      simp [pinned, pinnedGood, h2, h3, h4]
+
+/-- the consumer's verdict depends on the claims object only through the keys of its own struct -/
+theorem accepts_congr (c : Consumer) (x : Ctx) (a : Artefact) (w' : Wire)
+    (h : ∀ g ∈ c.reads, w' g = a.claims g) :
+    accepts c x { a with claims := w' } = accepts c x a := by
+  cases c with
+  | session =>
+    simp only [Consumer.reads, List.forall_mem_cons, List.not_mem_nil, false_imp_iff, implies_true, and_true] at h
+    obtain ⟨h1, h2, h3, h4, h5, h6, h7, h8⟩ := h
+    simp only [accepts, acceptSession, getAuthInfo_congr _ _ _ a w' h1 h2 h3 h4 h5 h6 h7 h8]
+  | upgrade =>
+    simp only [Consumer.reads, List.forall_mem_cons, List.not_mem_nil, false_imp_iff, implies_true, and_true] at h
+    obtain ⟨h1, h2, h3, h4, h5, h6, h7, h8⟩ := h
+    simp only [accepts, acceptUpgrade_congr _ _ _ a w' h1 h2 h3 h4 h5 h6 h7 h8]
+  | cliVerify =>
+    simp only [Consumer.reads, List.forall_mem_cons, List.not_mem_nil, false_imp_iff, implies_true, and_true] at h
+    obtain ⟨h1, h2, h3, h4, h5, h6, h7, h8⟩ := h
+    simp only [accepts, acceptCliVerify, getAuthInfo_congr _ _ _ a w' h1 h2 h3 h4 h5 h6 h7 h8]
+  | cliSend =>
+    simp only [Consumer.reads, List.forall_mem_cons, List.not_mem_nil, false_imp_iff, implies_true, and_true] at h
+    obtain ⟨h1, h2, h3, h4, h5, h6, h7, h8⟩ := h
+    simp only [accepts, acceptCliSend, getAuthInfo_congr _ _ _ a w' h1 h2 h3 h4 h5 h6 h7 h8]
+  | storage =>
+    simp only [Consumer.reads, List.forall_mem_cons, List.not_mem_nil, false_imp_iff, implies_true, and_true] at h
+    obtain ⟨h1, h2, h3, h4, h5, h6, h7, h8, h9⟩ := h
+    simp only [accepts]
+    exact congrArg isOk (acceptStorage_congr x.dep x.now
+      { user := x.colUser, ty := x.colType, expCol := x.colExp, jws := a } x.lookupUser x.lookupType w'
+      h1 h2 h3 h4 h5 h6 h7 h8 h9)
+  | code =>
+    simp only [accepts]
+    exact acceptCode_congr _ _ _ _ _ a w' h
+  | access =>
+    simp only [Consumer.reads, List.forall_mem_cons, List.not_mem_nil, false_imp_iff, implies_true, and_true] at h
+    obtain ⟨h1, h2, h3, h4, h5, h6, h7⟩ := h
+    simp only [accepts, acceptAccess_congr _ _ a w' h1 h2 h3 h4 h5 h6 h7]
+
+/-- **Single claim.** Take an artefact a consumer honours and change the value of one JSON key
+(to anything, including removing it), keeping the signature valid (i.e. re-signed by the real key):
+* a key the consumer's struct does not have changes nothing;
+* if the mutated artefact is still honoured, every pinned claim (issuer, kind, first audience / audience
+  rule, and where applicable subject, data type, redirect URI) decodes to the same value as before —
+  so a mutation that moves one of them is rejected. (`nbf`/`exp` mutations: `c04_window`.) -/
+theorem c04_single_claim (c : Consumer) (x : Ctx) (a : Artefact) (f : Field) (v : Option Val)
+    (h : accepts c x a = true) :
+    (f ∉ c.reads → accepts c x { a with claims := a.claims.set f v } = true) ∧
+    (accepts c x { a with claims := a.claims.set f v } = true →
+      pinned c x.dep (a.claims.set f v) = pinned c x.dep a.claims) := by
+  constructor
+  · intro hf
+    rw [accepts_congr c x a _ (fun g hg => set_other a.claims v (fun e => hf (by rw [← e]; exact hg)))]
+    exact h
+  · intro h'
+    have := pinned_of_accepts c x _ h'
+    simp only at this
+    rw [this, pinned_of_accepts c x a h]
+
+/-! ### side effects -/
+
+/-- **No effect.** In every token-consuming handler (as modelled: `checkAuth`-guarded handlers that
+hand out tokens, `updateAuthCookieAuthlevel`, the two CLI-token handlers, `GetSigned`, the token and
+userinfo endpoints) a rejected artefact leaves nothing behind: no `Set-Cookie`, no token handed out,
+no protected value disclosed. (Nothing in these paths writes server-side state at all: sessions and
+tokens are stateless.) -/
+theorem c04_no_effect (d : Deployment) (now : Clock) (e : Rej) :
+    (∀ req cookie mint, (hWithSession d now req cookie mint).1 = .error e →
+        (hWithSession d now req cookie mint).2 = Effects.nothing) ∧
+    (∀ lvl cookie, (hUpgrade d now lvl cookie).1 = .error e → (hUpgrade d now lvl cookie).2 = Effects.nothing) ∧
+    (∀ tok, (hCliVerify d now tok).2 = Effects.nothing) ∧
+    (∀ req cookie tok, (hCliSend d now req cookie tok).1 = .error e →
+        (hCliSend d now req cookie tok).2 = Effects.nothing) ∧
+    (∀ r u ty, (hGetSigned d now r u ty).1 = .error e → (hGetSigned d now r u ty).2 = Effects.nothing) ∧
+    (∀ cl rd ok code, (hToken d now cl rd ok code).1 = .error e →
+        (hToken d now cl rd ok code).2 = Effects.nothing) ∧
+    (∀ tok, (hUserinfo d now tok).1 = .error e → (hUserinfo d now tok).2 = Effects.nothing) := by
+  refine ⟨?_, ?_, ?_, ?_, ?_, ?_, ?_⟩
+  · intro req cookie mint h
+    unfold hWithSession at h ⊢
+    split <;> try rfl
+    split <;> try rfl
+    rename_i hh; simp [hh] at h
+  · intro lvl cookie h
+    unfold hUpgrade at h ⊢
+    split <;> try rfl
+    split <;> try rfl
+    rename_i hh; simp [hh] at h
+  · intro tok
+    unfold hCliVerify
+    split <;> rfl
+  · intro req cookie tok h
+    unfold hCliSend at h ⊢
+    split <;> try rfl
+    split <;> try rfl
+    split <;> try rfl
+    rename_i h1 _ _ h2 _ _ h3; simp [h2, h3] at h
+  · intro r u ty h
+    unfold hGetSigned at h ⊢
+    split <;> try rfl
+    rename_i hh; simp [hh] at h
+  · intro cl rd ok code h
+    unfold hToken at h ⊢
+    split <;> try rfl
+    rename_i hh; simp [hh] at h
+  · intro tok h
+    unfold hUserinfo at h ⊢
+    split <;> try rfl
+    rename_i hh; simp [hh] at h
+
+/-- and the handlers decide exactly as the consumers do -/
+theorem handlers_decide_as_consumers (d : Deployment) (now : Clock) :
+    (∀ lvl a, ((hUpgrade d now lvl (some a)).1 = .ok ()) ↔ isOk (acceptUpgrade d now lvl a) = true) ∧
+    (∀ r u ty, ((hGetSigned d now r u ty).1 = .ok ()) ↔ isOk (acceptStorage d now r u ty) = true) ∧
+    (∀ cl rd ok a, ((hToken d now cl rd ok a).1 = .ok ()) ↔ isOk (acceptCode d now cl rd ok a) = true) ∧
+    (∀ a, ((hUserinfo d now a).1 = .ok ()) ↔ isOk (acceptAccess d now a) = true) := by
+  refine ⟨?_, ?_, ?_, ?_⟩
+  · intro lvl a; unfold hUpgrade; simp only; cases acceptUpgrade d now lvl a <;> simp [isOk]
+  · intro r u ty; unfold hGetSigned; cases acceptStorage d now r u ty <;> simp [isOk]
+  · intro cl rd ok a; unfold hToken; cases acceptCode d now cl rd ok a <;> simp [isOk]
+  · intro a; unfold hUserinfo; cases acceptAccess d now a <;> simp [isOk]
+
+/-! ### the two sanctioned re-issues keep what the input token said -/
+
+theorem gInt_emitAuth_exp (c : AuthClaims) (h : inI64 c.exp = true) : gInt (emitAuth c) .exp = c.exp := by
+  unfold gInt emitAuth optInt
+  by_cases h0 : c.exp = 0
+  · simp [h0, decInt]
+  · simp [h0, decInt, h]
+
+theorem gStr_emitAuth_sub (c : AuthClaims) : gStr (emitAuth c) .sub = c.sub := by
+  unfold gStr emitAuth optStr
+  by_cases h0 : c.sub = []
+  · simp [h0, decStr]
+  · simp [h0, decStr]
+
+/-- **Upgrade keeps window and user.** The cookie `updateAuthJWTWithNewAuthLevel` re-signs (with
+whichever trusted key, at whatever later time it is presented, for whatever mask) is honoured by
+`checkAuth` only while the *original* cookie's signed `exp` has not passed, and for the original
+cookie's user: upgrading never extends a session nor changes whose it is. -/
+theorem c04_upgrade_keeps_window_and_user (d : Deployment) (now now' : Clock) (lvl : Int) (a : Artefact)
+    (c : AuthClaims) (h : acceptUpgrade d now lvl a = .ok c)
+    (alg sigAlg : Alg) (signedBy : Option Nat) (req : Nat) (info : AuthInfo)
+    (h' : acceptSession d now' req { claims := emitAuth c, alg := alg, signedBy := signedBy, sigAlg := sigAlg } = .ok info) :
+    expiredAt (gInt a.claims .exp) now' = false ∧ info.username = gStr a.claims .sub ∧ info.authType = lvl := by
+  obtain ⟨_, _, _, rfl⟩ := acceptUpgrade_ok h
+  obtain ⟨hg, he, _⟩ := acceptSession_ok h'
+  obtain ⟨_, ht, _, rfl⟩ := getAuthInfo_ok hg
+  simp only at he ht ⊢
+  rw [gInt_emitAuth_exp _ (by simp [decodeAuth, gInt_range])] at he
+  rw [gStr_emitAuth_sub]
+  refine ⟨by simpa [decodeAuth] using he, by simp [decodeAuth], ?_⟩
+  have hl : inI64 lvl = true := by
+    simp only [typedAuth, okInt, emitAuth, decInt, Bool.and_eq_true] at ht
+    have := ht.2
+    split at this
+    · assumption
+    · cases this
+  simp [emitAuth, gInt, decInt, hl]
+
+theorem remaining_le {e : Int} {now : Clock} (hr : inI64 e = true) (hn : 0 ≤ now.sec)
+    (hns : now.nsec < 1000000000) (h : expiredAt e now = false) :
+    0 ≤ remainingSecs e now ∧ now.sec + remainingSecs e now ≤ e := by
+  have hb := inI64_bounds hr
+  simp only [expiredAt, Bool.or_eq_false_iff, Bool.and_eq_false_iff, decide_eq_false_iff_not, Int.not_lt] at h
+  obtain ⟨h1, h2⟩ := h
+  unfold remainingSecs
+  unfold unixInternal wrap64 at h1 h2 ⊢
+  omega
+
+/-- **CLI hand-off.** The one sanctioned change of kind: `SendAuthDocumentHandler` turns an honoured
+CLI token into a session cookie for the CLI. That cookie names the token's user (who is the
+logged-in user), carries only the `WebauthForCLI` level, and never outlives the token. -/
+theorem c04_cli_session_bounded (d : Deployment) (now : Clock) (u : Str) (tok : Artefact) (info : AuthInfo)
+    (hn : 0 ≤ now.sec) (hns : now.nsec < 1000000000) (h : acceptCliSend d now u tok = .ok info) :
+    info.username = u ∧ info.username = gStr tok.claims .sub ∧
+    gStr (emitSession d info.username KM.Gen.authTypeWebauthForCLI now.sec (remainingSecs info.expiresAt now)) .sub
+      = gStr tok.claims .sub ∧
+    gInt (emitSession d info.username KM.Gen.authTypeWebauthForCLI now.sec (remainingSecs info.expiresAt now)) .exp
+      ≤ gInt tok.claims .exp := by
+  obtain ⟨hg, hu, he⟩ := acceptCliSend_ok h
+  obtain ⟨_, _, _, rfl⟩ := getAuthInfo_ok hg
+  simp only at hu he ⊢
+  have hr := remaining_le (gInt_range tok.claims .exp) hn hns he
+  have hb := inI64_bounds (gInt_range tok.claims .exp)
+  refine ⟨hu, by simp, ?_, ?_⟩
+  · unfold emitSession; rw [gStr_emitAuth_sub]
+  · unfold emitSession
+    rw [gInt_emitAuth_exp _ (by simp only [inI64, Bool.and_eq_true, decide_eq_true_eq]; omega)]
+    exact hr.2
+
+/-! ### the tree as found -/
+
+def cxDep : Deployment := { issuer := "https://km".toList, trusted := [⟨1, .rsa⟩] }
+def cxNow : Clock := { sec := 1000, nsec := 0 }
+/-- a record really signed by keymaster for alice, type 1, whose signed `exp` (400) is long past -/
+def cxExpired : Artefact :=
+  { claims := emitStorage cxDep "alice".toList 1 "hash".toList 400 100, alg := .RS256, signedBy := some 1, sigAlg := .RS256 }
+/-- a record really signed by keymaster for alice, type 2 -/
+def cxType2 : Artefact :=
+  { claims := emitStorage cxDep "alice".toList 2 "other".toList 5000 100, alg := .RS256, signedBy := some 1, sigAlg := .RS256 }
+/-- context: the unsigned columns say (alice, 1, 9999); the lookup is for (alice, 1) -/
+def cxCtx : Ctx :=
+  { dep := cxDep, now := cxNow, lookupUser := "alice".toList, lookupType := 1,
+    colUser := "alice".toList, colType := 1, colExp := 9999 }
+
+/-- **As found.** `GetSigned` of the pinned tree honours a record whose signed `exp` is in the past
+once the unsigned `expiration_epoch` column is raised, and a type-2 record for a type-1 lookup once
+the unsigned `type` column is edited — both violate the property's predicate; the repaired consumer
+rejects both. -/
+theorem c04_unfixed_counterexample :
+    acceptsOld .storage cxCtx cxExpired = true ∧ honourable .storage cxCtx cxExpired = false ∧
+    acceptsOld .storage cxCtx cxType2 = true ∧ honourable .storage cxCtx cxType2 = false ∧
+    accepts .storage cxCtx cxExpired = false ∧ accepts .storage cxCtx cxType2 = false := by
+  decide
+
+/-! ### non-vacuity: the hypotheses of the theorems are satisfiable, honest artefacts are honoured -/
+
+example : Sane cxCtx := ⟨by decide, by decide⟩
+
+def cxKey : Artefact → Artefact := fun a => { a with alg := .RS256, signedBy := some 1, sigAlg := .RS256 }
+
+example : accepts .session { cxCtx with required := 2 }
+    (cxKey { claims := emitSession cxDep "alice".toList 10 900 57600, alg := .none, signedBy := none, sigAlg := .none }) = true := by
+  decide
+example : accepts .cliVerify cxCtx
+    (cxKey { claims := emitCli cxDep "alice".toList 900 3600, alg := .none, signedBy := none, sigAlg := .none }) = true := by
+  decide
+example : accepts .storage cxCtx
+    (cxKey { claims := emitStorage cxDep "alice".toList 1 "hash".toList 5000 100, alg := .none, signedBy := none, sigAlg := .none }) = true := by
+  decide
+example : accepts .code { cxCtx with clientID := "clientA".toList, redirect := "https://app/cb".toList }
+    (cxKey { claims := emitCode cxDep ⟨"clientA".toList, "alice".toList, "openid".toList, [], "https://app/cb".toList, [], [], [], []⟩ 900,
+             alg := .none, signedBy := none, sigAlg := .none }) = true := by
+  decide
+example : accepts .access cxCtx
+    (cxKey { claims := emitAccess cxDep
+              (emitCode cxDep ⟨"clientA".toList, "alice".toList, "openid".toList, [], "https://app/cb".toList, [], [], [], []⟩ 900) 950,
+             alg := .none, signedBy := none, sigAlg := .none }) = true := by
+  decide
+/-- an ID token presented as access token is rejected -/
+example : accepts .access cxCtx
+    (cxKey { claims := emitId cxDep
+              (emitCode cxDep ⟨"clientA".toList, "alice".toList, "openid".toList, [], "https://app/cb".toList, [], [], [], []⟩ 900)
+              "clientA".toList 950,
+             alg := .none, signedBy := none, sigAlg := .none }) = false := by
+  decide
+
+end KM.Token
